@@ -116,7 +116,9 @@ theorem encodeData_spec {o : Oracle} {s s' : St} {site : Nat} {il ff : Bool} {re
     · have hmid : encMid s il = (s2, w) := by
         unfold encMid
         rw [hpre3]
+        rfl
       rw [hmid]
+      show ∃ hdr, EncMidOK s il s2 w hdr ∧ encPayload s2 (o s.nEnc (reqOf s site il ff)) s.carry w hdr il ff = .ok (s', true)
       refine ⟨hdr, ?_, hrest⟩
       obtain ⟨e1, e2, e3, e4, e5, e6, _, e8, e9, e10, e11, e12, e13⟩ := encEntry_fields s il
       obtain ⟨m1, m2, m3, m4, m5, m6, m7, m8⟩ := encMagic_frame (encEntry s il) s.carry
